@@ -19,10 +19,6 @@ import Irismod.Proofs.Params
 namespace Irismod.Props.C16
 open Irismod Irismod.Sdk Irismod.Params Irismod.Spec.C16
 
-namespace Proofs
-/-- 2^255 -/
-def p255 : Int := 57896044618658097711785492504343953926634992332820282019728792003956564819968
-end Proofs
 
 /-! ## regenerated handler table -/
 
@@ -153,11 +149,17 @@ theorem genesis_stored_is_valid {P : Type} (vg validate : P → Res Unit) (norm 
 /-! ### the stored sets are valid after every history -/
 
 theorem defaults_valid : StoreValid {} := by
-  refine ⟨by decide, ?_, by decide, by decide, by decide⟩
-  show farmValidateWith _ _ farmDefault = .ok ()
-  generalize Gen.Handlers.farmValidatesTaxRate = c
-  generalize Gen.Handlers.farmTaxRateNilGuard = g
-  cases c <;> cases g <;> decide
+  refine ⟨?_, ?_, by decide, by decide, ?_⟩
+  · show coinswapValidateWith _ coinswapDefault = .ok ()
+    generalize Gen.Handlers.coinswapValidatesFeeDenom = c
+    cases c <;> decide
+  · show farmValidateWith _ _ farmDefault = .ok ()
+    generalize Gen.Handlers.farmValidatesTaxRate = c
+    generalize Gen.Handlers.farmTaxRateNilGuard = g
+    cases c <;> cases g <;> decide
+  · show tokenValidateWith _ tokenDefault = .ok ()
+    generalize Gen.Handlers.tokenValidatesFeeDenom = c
+    cases c <;> decide
 
 theorem applyOp_preserves_valid (s : Store) (op : UpdateOp) (h : StoreValid s) :
     StoreValid (applyOp s op) := by
@@ -208,45 +210,67 @@ theorem stored_params_always_valid (ops : List UpdateOp) : StoreValid (run {} op
 
 ### coinswap -/
 
-/-- full statement for pool creation (`DeductPoolCreationFee`) — FALSE of the code -/
-def CoinswapPoolCreationNoAbort : Prop :=
-  ∀ p : CoinswapParams, coinswapValidate p = .ok () →
+/-- full statement for pool creation (`DeductPoolCreationFee`), as a function of whether
+    `Params.Validate` checks the fee denomination (regenerated fact); the amount bound excludes
+    the overflow class F-par-3 -/
+def CoinswapPoolCreationNoAbort (checksDenom : Bool) : Prop :=
+  ∀ p : CoinswapParams, coinswapValidateWith checksDenom p = .ok () →
+    (∀ a, p.poolCreationFee.amount = some a → a < pow2_255) →
     NoAbort (poolCreationFee p.poolCreationFee p.taxRate)
 
 /-- F-par-2: `Params.Validate` checks only the sign of the pool creation fee; with an empty
     denomination the set is accepted and `sdk.NewCoin` panics in `AddLiquidity` -/
-theorem coinswap_noabort_fails_unvalidated_denom : ¬ CoinswapPoolCreationNoAbort := by
+theorem coinswap_noabort_fails_unvalidated_denom : ¬ CoinswapPoolCreationNoAbort false := by
   intro h
-  have := h { coinswapDefault with poolCreationFee := ⟨"", some 5000⟩ } (by decide) .badDenom
+  have := h { coinswapDefault with poolCreationFee := ⟨"", some 5000⟩ } (by decide)
+    (by intro a ha; cases ha; decide) .badDenom
   exact this (by decide)
 
-/-- F-par-3: a fee amount near 2^256 overflows the 315-bit decimal in `Mul(taxRate)` -/
+/-- F-par-3: a fee amount near 2^256 overflows the 315-bit decimal in `Mul(taxRate)`, whatever is
+    validated about the denomination -/
 theorem coinswap_noabort_fails_extreme_amount :
-    ∃ p : CoinswapParams, coinswapValidate p = .ok () ∧ validDenom p.poolCreationFee.denom = true ∧
+    ∃ p : CoinswapParams, (∀ c, coinswapValidateWith c p = .ok ()) ∧
       poolCreationFee p.poolCreationFee p.taxRate = .error (.panic .overflow) :=
   ⟨{ coinswapDefault with poolCreationFee := ⟨"stake", some (pow2_256i - 1)⟩, taxRate := some ⟨999999999999999999⟩ },
-    by decide, by decide, by decide⟩
+    by intro c; cases c <;> decide, by decide⟩
 
-/-- the strongest true statement: with a well-formed fee denomination (excludes F-par-2) and a fee
-    amount below 2^255 (excludes F-par-3) pool creation never aborts, and splits the fee exactly -/
-theorem coinswap_pool_creation_noabort_partial (p : CoinswapParams) (hv : coinswapValidate p = .ok ())
+/-- the strongest statement true of the unfixed code: with a well-formed fee denomination
+    (excludes F-par-2) and a fee amount below 2^255 (excludes F-par-3) pool creation never aborts,
+    and splits the fee exactly -/
+theorem coinswap_pool_creation_noabort_partial (c : Bool) (p : CoinswapParams)
+    (hv : coinswapValidateWith c p = .ok ())
     (hd : validDenom p.poolCreationFee.denom = true)
     (hb : ∀ a, p.poolCreationFee.amount = some a → a < pow2_255) :
     ∃ tax burned, poolCreationFee p.poolCreationFee p.taxRate = .ok (tax, burned) ∧
       (∀ a, p.poolCreationFee.amount = some a → tax + burned = a) ∧ 0 ≤ tax ∧ 0 ≤ burned := by
-  obtain ⟨_, ⟨a, ha, ha0⟩, ⟨tax, htax, ht0, ht1⟩, _⟩ := coinswapValidate_ok hv
+  obtain ⟨_, ⟨a, ha, ha0⟩, ⟨tax, htax, ht0, ht1⟩, _, _⟩ := coinswapValidateWith_ok hv
   obtain ⟨t, b, hs, hsum, h1, h2⟩ := feeSplit_ok p.poolCreationFee.denom a tax hd (by omega) (hb a ha)
     (by omega) (by omega)
   refine ⟨t, b, ?_, ?_, h1, h2⟩
   · simp [poolCreationFee, ha, htax, hs]
   · intro a' ha'; rw [ha] at ha'; cases ha'; exact hsum
 
+/-- with the denomination check in place the full statement holds -/
+theorem coinswap_noabort_when_denom_validated : CoinswapPoolCreationNoAbort true := by
+  intro p hv hb k
+  obtain ⟨_, _, _, _, hd⟩ := coinswapValidateWith_ok hv
+  obtain ⟨t, b, hs, _⟩ := coinswap_pool_creation_noabort_partial true p hv (hd rfl) hb
+  rw [hs]; simp
+
+/-- the code as it is on this run -/
+theorem coinswap_noabort_current (h : Gen.Handlers.coinswapValidatesFeeDenom = true) (p : CoinswapParams)
+    (hv : coinswapValidate p = .ok ()) (hb : ∀ a, p.poolCreationFee.amount = some a → a < pow2_255) :
+    NoAbort (poolCreationFee p.poolCreationFee p.taxRate) := by
+  unfold coinswapValidate at hv
+  rw [h] at hv
+  exact coinswap_noabort_when_denom_validated p hv hb
+
 /-- for EVERY fee amount: a validated set with a well-formed denomination aborts pool creation at
     most by overflow (never nil, never a negative coin) -/
-theorem coinswap_pool_creation_only_overflow (p : CoinswapParams) (hv : coinswapValidate p = .ok ())
-    (hd : validDenom p.poolCreationFee.denom = true) :
+theorem coinswap_pool_creation_only_overflow (c : Bool) (p : CoinswapParams)
+    (hv : coinswapValidateWith c p = .ok ()) (hd : validDenom p.poolCreationFee.denom = true) :
     OnlyOverflow (poolCreationFee p.poolCreationFee p.taxRate) := by
-  obtain ⟨_, ⟨a, ha, ha0⟩, ⟨tax, htax, ht0, ht1⟩, _⟩ := coinswapValidate_ok hv
+  obtain ⟨_, ⟨a, ha, ha0⟩, ⟨tax, htax, ht0, ht1⟩, _, _⟩ := coinswapValidateWith_ok hv
   intro k h
   simp only [poolCreationFee, ha, htax] at h
   exact feeSplit_only_overflow _ a tax hd (by omega) (by omega) (by omega) k h
@@ -258,10 +282,27 @@ theorem coinswap_prices_never_divide_by_zero (p : CoinswapParams) (hv : coinswap
     (amt inRes outRes : Int) :
     (0 ≤ amt → 0 ≤ inRes → (0 < inRes ∨ 0 < amt) → OnlyOverflow (inputPrice amt inRes outRes p.fee)) ∧
     (amt < outRes → OnlyOverflow (outputPrice amt inRes outRes p.fee)) := by
-  obtain ⟨⟨fee, hfee, hf0, hf1⟩, _⟩ := coinswapValidate_ok hv
+  obtain ⟨⟨fee, hfee, hf0, hf1⟩, _⟩ := coinswapValidateWith_ok hv
   rw [hfee]
   exact ⟨fun h1 h2 h3 => inputPrice_only_overflow fee hf0 hf1 amt inRes outRes h1 h2 h3,
          fun h => outputPrice_only_overflow fee hf0 hf1 amt inRes outRes h⟩
+
+/-- … and with amounts and reserves below 2^96 the swaps do not abort at all -/
+theorem coinswap_prices_noabort_bounded (p : CoinswapParams) (hv : coinswapValidate p = .ok ())
+    (amt inRes outRes : Int) (h1 : 0 ≤ amt ∧ amt < pow2_96) (h2 : 0 ≤ inRes ∧ inRes < pow2_96)
+    (h3 : 0 ≤ outRes ∧ outRes < pow2_96) :
+    ((0 < inRes ∨ 0 < amt) → NoAbort (inputPrice amt inRes outRes p.fee)) ∧
+    (amt < outRes → NoAbort (outputPrice amt inRes outRes p.fee)) := by
+  obtain ⟨⟨fee, hfee, hf0, hf1⟩, _⟩ := coinswapValidateWith_ok hv
+  rw [hfee]
+  exact ⟨fun h => inputPrice_noabort_bounded fee hf0 hf1 amt inRes outRes h1 h2 h3 h,
+         fun h => outputPrice_noabort_bounded fee hf0 hf1 amt inRes outRes h1 h2 h3 h⟩
+
+/-- unilateral liquidity: `1 - UnilateralLiquidityFee` is a numerator in `[1, 10^18]`, never zero -/
+theorem coinswap_unilateral_delta_positive (p : CoinswapParams) (hv : coinswapValidate p = .ok ()) :
+    ∃ d, deltaFeeInt p.unilateralLiquidityFee = .ok d ∧ 1 ≤ d ∧ d ≤ precision := by
+  obtain ⟨_, _, _, ⟨u, hu, hu0, hu1⟩, _⟩ := coinswapValidateWith_ok hv
+  exact ⟨precision - u.raw, by rw [hu]; exact deltaFeeInt_ok' u hu0 hu1, by omega, by omega⟩
 
 /-! ### farm: the tax-rate check is a regenerated fact -/
 
@@ -338,32 +379,49 @@ theorem service_timeout_window (p : ServiceParams) (hv : serviceValidate p = .ok
 
 /-! ### token -/
 
-def TokenFeePathsNoAbort : Prop :=
-  ∀ (p : TokenParams) (reg : TokenReg) (factor : Dec), tokenValidate p = .ok () → RegOk reg →
-    precision ≤ factor.raw → NoAbort (issueFeePath p reg factor) ∧ NoAbort (mintFeePath p reg factor)
+/-- full statement for the issue/mint fee paths, as a function of whether the base-fee
+    denomination is validated (regenerated fact); the amount bound excludes F-par-3 -/
+def TokenFeePathsNoAbort (checksDenom : Bool) : Prop :=
+  ∀ (p : TokenParams) (reg : TokenReg) (factor : Dec), tokenValidateWith checksDenom p = .ok () →
+    RegOk reg → precision ≤ factor.raw → (∀ a, p.issueTokenBaseFee.amount = some a → a < pow2_128) →
+    NoAbort (issueFeePath p reg factor) ∧ NoAbort (mintFeePath p reg factor)
 
 /-- F-par-2: the issue-fee denomination is not validated; `sdk.NewCoin` panics in `IssueToken`,
     `MintToken` (and the fee ante handler / fee query) -/
-theorem token_noabort_fails_unvalidated_denom : ¬ TokenFeePathsNoAbort := by
+theorem token_noabort_fails_unvalidated_denom : ¬ TokenFeePathsNoAbort false := by
   intro h
   have := (h { tokenDefault with issueTokenBaseFee := ⟨"", some 60000⟩ } [] ⟨precision⟩ (by decide)
-    (by intro e he; cases he) (by decide)).1 .badDenom
+    (by intro e he; cases he) (by decide) (by intro a ha; cases ha; decide)).1 .badDenom
   exact this (by decide)
 
 /-- F-par-3: a base fee near 2^256 overflows the decimal quotient -/
 theorem token_noabort_fails_extreme_amount :
-    ∃ p : TokenParams, tokenValidate p = .ok () ∧ validDenom p.issueTokenBaseFee.denom = true ∧
+    ∃ p : TokenParams, (∀ c, tokenValidateWith c p = .ok ()) ∧
       issueFeePath p batteryReg factor3 = .error (.panic .overflow) :=
-  ⟨{ tokenDefault with issueTokenBaseFee := ⟨"stake", some (pow2_256i - 1)⟩ }, by decide, by decide, by decide⟩
+  ⟨{ tokenDefault with issueTokenBaseFee := ⟨"stake", some (pow2_256i - 1)⟩ },
+    by intro c; cases c <;> decide, by decide⟩
 
-theorem token_fee_paths_noabort_partial (p : TokenParams) (reg : TokenReg) (factor : Dec)
-    (hv : tokenValidate p = .ok ()) (hreg : RegOk reg) (hf : precision ≤ factor.raw)
+theorem token_fee_paths_noabort_partial (c : Bool) (p : TokenParams) (reg : TokenReg) (factor : Dec)
+    (hv : tokenValidateWith c p = .ok ()) (hreg : RegOk reg) (hf : precision ≤ factor.raw)
     (hd : validDenom p.issueTokenBaseFee.denom = true)
     (hb : ∀ a, p.issueTokenBaseFee.amount = some a → a < pow2_128) :
     NoAbort (issueFeePath p reg factor) ∧ NoAbort (mintFeePath p reg factor) := by
-  obtain ⟨⟨t, ht, ht0, ht1⟩, ⟨r, hr, hr0, hr1⟩, ⟨a, ha, ha0⟩⟩ := tokenValidate_ok hv
+  obtain ⟨⟨t, ht, ht0, ht1⟩, ⟨r, hr, hr0, hr1⟩, ⟨a, ha, ha0⟩, _⟩ := tokenValidateWith_ok hv
   exact ⟨issueFeePath_noabort p reg factor a t ha ha0 (hb a ha) hd hf ht ht0 ht1 hreg,
          mintFeePath_noabort p reg factor a t r ha ha0 (hb a ha) hd hf ht ht0 ht1 hr hr0 hr1 hreg⟩
+
+theorem token_noabort_when_denom_validated : TokenFeePathsNoAbort true := by
+  intro p reg factor hv hreg hf hb
+  obtain ⟨_, _, _, hd⟩ := tokenValidateWith_ok hv
+  exact token_fee_paths_noabort_partial true p reg factor hv hreg hf (hd rfl) hb
+
+theorem token_noabort_current (h : Gen.Handlers.tokenValidatesFeeDenom = true) (p : TokenParams)
+    (reg : TokenReg) (factor : Dec) (hv : tokenValidate p = .ok ()) (hreg : RegOk reg)
+    (hf : precision ≤ factor.raw) (hb : ∀ a, p.issueTokenBaseFee.amount = some a → a < pow2_128) :
+    NoAbort (issueFeePath p reg factor) ∧ NoAbort (mintFeePath p reg factor) := by
+  unfold tokenValidate at hv
+  rw [h] at hv
+  exact token_noabort_when_denom_validated p reg factor hv hreg hf hb
 
 /-! ### htlc -/
 
@@ -380,8 +438,8 @@ theorem htlc_fragments_only_overflow (p : HtlcParams) (hv : htlcValidate p = .ok
 /-- … and not at all while counters, amounts and the fee/min-swap parameters stay below 2^128 -/
 theorem htlc_fragments_noabort_partial (p : HtlcParams) (hv : htlcValidate p = .ok ())
     (a : AssetParam) (ha : a ∈ p) (s : Supply) (hs : SupplySmall s) (amt : Int)
-    (hamt : 0 ≤ amt ∧ amt < Params.pow2_128) (tl : Nat)
-    (hfee : ∀ f mn, a.fixedFee = some f → a.minSwapAmount = some mn → f < Params.pow2_128 ∧ mn < Params.pow2_128) :
+    (hamt : 0 ≤ amt ∧ amt < pow2_128) (tl : Nat)
+    (hfee : ∀ f mn, a.fixedFee = some f → a.minSwapAmount = some mn → f < pow2_128 ∧ mn < pow2_128) :
     NoAbort (htltIncoming a s amt) ∧ NoAbort (htltOutgoing a s amt tl) ∧
     NoAbort (htltClaimIncoming a s amt) := by
   have hok := htlcValidate_ok hv a ha
@@ -394,8 +452,8 @@ theorem htlc_noabort_fails_extreme_amount :
     ∃ (a : AssetParam) (amt : Int), htlcValidate [a] = .ok () ∧
       htltOutgoing a {} amt a.maxBlockLock = .error (.panic .overflow) :=
   ⟨{ denom := "htltbnb", supplyLimit := ⟨some (pow2_256i - 1), false, 0, some 0⟩, active := true, deputy := "A3",
-     fixedFee := some Proofs.p255, minSwapAmount := some Proofs.p255, maxSwapAmount := some Proofs.p255,
-     minBlockLock := 50, maxBlockLock := 100 }, Proofs.p255, by decide, by decide⟩
+     fixedFee := some pow2_255, minSwapAmount := some pow2_255, maxSwapAmount := some pow2_255,
+     minBlockLock := 50, maxBlockLock := 100 }, pow2_255, by decide, by decide⟩
 
 /-- time windows: a validated asset always admits a time lock that the message validation admits -/
 theorem htlc_time_window_nonempty (p : HtlcParams) (hv : htlcValidate p = .ok ()) (a : AssetParam) (ha : a ∈ p) :
